@@ -201,11 +201,16 @@ def _canon_snapshot() -> dict:
 
 
 def run(ctx) -> None:
-    baseline = _canon_snapshot()
-    try:
-        _run(ctx)
-    finally:
-        pass
+    holder = {}
+
+    def take(_case):
+        holder["b"] = _canon_snapshot()
+        return None
+    ctx.check({"history": "canonical responses at the start of the run"}, take)      # (a library exception here is a violation, not a harness error)
+    baseline = holder.get("b")
+    _run(ctx)
+    if baseline is None:
+        return
     # history independence: after everything this process has parsed (undersized, unknown, repeated and odd records included), the
     # canonical responses still parse to what they parsed to at the start
     def again(_case):
